@@ -917,3 +917,42 @@ def _share_origin(f, chain_a, chain_b):
                     out.add(pl["l"])
         return out
     return bool(bases(chain_a) & bases(chain_b))
+
+
+def r16g(ctx, rep, rule="R16g"):
+    import re as _re2
+    facts = ctx["facts"]
+    rep.rule(rule, "a radix printer prints every numeric component in its own radix: inside <Number as LowerHex / Octal / "
+             "Binary>::fmt each formatting of a number — a fmt::rt::Argument constructor over a numeric type, or a direct "
+             "<T as fmt::X>::fmt call for numeric T — uses that same trait. A numerator in hexadecimal followed by a "
+             "denominator in decimal reads back as a different rational.")
+    want = {"LowerHex": "new_lower_hex", "Octal": "new_octal", "Binary": "new_binary"}
+    numeric = _re2.compile(r"(?:^|[<&:\s])(i8|i16|i32|i64|i128|isize|u8|u16|u32|u64|u128|usize|f32|f64|BigInt|BigUint|Ratio<[^>]*>)(?:$|[>,\s])")
+    n = 0
+    for tr, ctor in sorted(want.items()):
+        f = facts.fns.get("<marwood::number::Number as std::fmt::%s>::fmt" % tr)
+        if f is None:
+            rep.anchor_lost(rule, "<Number as %s>::fmt" % tr)
+            continue
+        bad = []
+        for bb, t in f.calls():
+            fa = t.get("fnargs") or callee(t) or ""
+            m = _re2.search(r"fmt::rt::Argument::<[^>]*>::(new_[a-z_]+)::<(.*)>$", fa)
+            if m:
+                if numeric.search(m.group(2)):
+                    n += 1
+                    if m.group(1) != ctor:
+                        bad.append((t, "formats a %s with {%s}" % (m.group(2), m.group(1).replace("new_", ""))))
+                continue
+            m = _re2.match(r"<(.*) as std::fmt::([A-Za-z]+)>::fmt$", fa)
+            if m and numeric.search(m.group(1)):
+                n += 1
+                if m.group(2) != tr:
+                    bad.append((t, "calls <%s as fmt::%s>::fmt" % (m.group(1), m.group(2))))
+        key = "%s|%s" % (rule, tr)
+        if bad:
+            rep.fail(rule, key, "<Number as %s>::fmt %s: that component is written in another radix than the rest of the number" % (
+                tr, "; ".join(w for _, w in bad)), [bad[0][0]["loc"]])
+        else:
+            rep.ok(rule, key, "<Number as %s>::fmt formats every numeric component with fmt::%s" % (tr, tr), [f.span])
+    rep.floor(rule, "numeric formatting sites inside the radix printers", n, 12)
